@@ -20,6 +20,11 @@ type Flow struct {
 	succ  map[interface{}][]interface{}
 	scope map[*ssa.Function]bool
 	Edges int
+	// ExtAlias: for callees outside the scope, full name -> argument indexes (receiver = 0)
+	// whose value the first result may alias (e.g. goutil.BytesToString: {0}).
+	ExtAlias map[string][]int
+	// ConvertCopies: string<->[]byte conversions copy (no alias edge).
+	ConvertCopies bool
 }
 
 type fieldNode struct {
@@ -41,7 +46,12 @@ func (f fieldNode) String() string { return FieldRef{f.T, f.Idx}.String() }
 
 // NewFlow builds the graph over the given functions.
 func NewFlow(p *Prog, fns []*ssa.Function, track func(types.Type) bool) *Flow {
-	fl := &Flow{P: p, Track: track, succ: map[interface{}][]interface{}{}, scope: map[*ssa.Function]bool{}}
+	return NewFlowOpt(p, fns, track, nil, false)
+}
+
+// NewFlowOpt is NewFlow with external alias summaries and copy-semantics for conversions.
+func NewFlowOpt(p *Prog, fns []*ssa.Function, track func(types.Type) bool, extAlias map[string][]int, convertCopies bool) *Flow {
+	fl := &Flow{P: p, Track: track, succ: map[interface{}][]interface{}{}, scope: map[*ssa.Function]bool{}, ExtAlias: extAlias, ConvertCopies: convertCopies}
 	for _, fn := range fns {
 		fl.scope[fn] = true
 	}
@@ -105,6 +115,10 @@ func (fl *Flow) buildFn(fn *ssa.Function) {
 			case *ssa.UnOp:
 				if x.Op == token.MUL && fl.tracked(x) {
 					fl.edge(fl.loc(x.X), x)
+					// an element loaded from a container inherits the container's taint
+					if ia, ok := x.X.(*ssa.IndexAddr); ok {
+						fl.edge(ia.X, x)
+					}
 				}
 				if x.Op == token.ARROW && fl.tracked(x) {
 					fl.edge(collNode{x.X.Type().String()}, x)
@@ -130,9 +144,13 @@ func (fl *Flow) buildFn(fn *ssa.Function) {
 					fl.edge(x.X, x)
 				}
 			case *ssa.Convert:
-				if fl.tracked(x.X) && fl.tracked(x) {
+				if fl.tracked(x.X) && fl.tracked(x) && !fl.ConvertCopies {
 					fl.edge(x.X, x)
 				}
+			case *ssa.Range:
+				fl.edge(x.X, x)
+			case *ssa.Next:
+				fl.edge(x.Iter, x)
 			case *ssa.TypeAssert:
 				if fl.tracked(x) || x.CommaOk {
 					fl.edge(x.X, x)
@@ -141,7 +159,7 @@ func (fl *Flow) buildFn(fn *ssa.Function) {
 				if fl.tracked(x) {
 					if call, ok := x.Tuple.(*ssa.Call); ok {
 						fl.edge(callResultKey{call, x.Index}, x)
-					} else {
+					} else if _, isNext := x.Tuple.(*ssa.Next); !isNext || x.Index > 0 {
 						fl.edge(x.Tuple, x)
 					}
 				}
@@ -154,6 +172,11 @@ func (fl *Flow) buildFn(fn *ssa.Function) {
 			case *ssa.Lookup:
 				if fl.tracked(x) {
 					fl.edge(collNode{x.X.Type().String()}, x)
+					fl.edge(x.X, x)
+				}
+			case *ssa.Index:
+				if fl.tracked(x) {
+					fl.edge(x.X, x)
 				}
 			case *ssa.MapUpdate:
 				if fl.tracked(x.Value) {
@@ -201,6 +224,25 @@ func (fl *Flow) buildCall(call ssa.CallInstruction) {
 		args = append([]ssa.Value{cc.Value}, cc.Args...)
 	} else {
 		args = cc.Args
+	}
+	if fl.ExtAlias != nil {
+		if o := CalleeObj(call); o != nil {
+			if idxs, ok := fl.ExtAlias[o.FullName()]; ok {
+				if v, ok := call.(*ssa.Call); ok {
+					for _, ai := range idxs {
+						if ai < len(args) {
+							if v.Type() != nil {
+								if tup, isTup := v.Type().(*types.Tuple); isTup && tup.Len() > 1 {
+									fl.edge(args[ai], callResultKey{v, 0})
+								} else {
+									fl.edge(args[ai], v)
+								}
+							}
+						}
+					}
+				}
+			}
+		}
 	}
 	for _, cal := range callees {
 		if cal == nil || !fl.scope[cal] || cal.Blocks == nil {
